@@ -88,6 +88,8 @@ def run(tier):
     cases = [c for _, c, _ in corpus] + wc.gen_cases(tier, rng)
     log(f"C01: {len(cases)} write histories ({len(corpus)} from the corpus)")
     written = check_cases(rep, cases, tier, rng, corpus_n=len(corpus))
+    if tier == "thorough":
+        wc.check_limits(rep, PID)
     for c in (cases[len(corpus)], cases[len(cases) // 2], cases[-1]):
         rep.sample(wc.case_summary(c))
     wc.model_tie(rep, written)
